@@ -67,6 +67,30 @@ func intToBV(w int, x *Term) *Term {
 	return mk("int2bv", w, x)
 }
 
+// hasInt2bv reports whether the bit-vector term still contains an int2bv (non-structural) conversion.
+func hasInt2bv(t *Term, seen map[*Term]bool) bool {
+	if seen[t] {
+		return false
+	}
+	seen[t] = true
+	if t.Op == "int2bv" {
+		return true
+	}
+	for _, a := range t.Args {
+		if hasInt2bv(a, seen) {
+			return true
+		}
+	}
+	return false
+}
+
+func powerOfTwo(v *big.Int) int {
+	if v.Sign() <= 0 || new(big.Int).And(v, new(big.Int).Sub(v, big.NewInt(1))).Sign() != 0 {
+		return -1
+	}
+	return v.BitLen() - 1
+}
+
 func setRecv(a []Value, t *Term) Value {
 	p := a[0].(*Value)
 	*p = BigInt{t}
@@ -91,6 +115,15 @@ func initBig() {
 	intrinsics["(*math/big.Int).Mod"] = func(in *Interp, fn *ssa.Function, a []Value) Value {
 		y := bigOf(a[2])
 		in.ctx.PanicIf(IntCmp("=", y, IntConst(big.NewInt(0))), "division by zero (big.Int)")
+		if y.IsConst() && !bigOf(a[1]).IsConst() {
+			// x mod 2^k for an x built from bit-vectors: stay in the bit-vector theory (Euclidean mod = low k bits)
+			if k := powerOfTwo(y.Val); k > 0 && k <= 256 {
+				bv := intToBV(k, bigOf(a[1]))
+				if !hasInt2bv(bv, map[*Term]bool{}) {
+					return setRecv(a, bvToIntU(bv))
+				}
+			}
+		}
 		return setRecv(a, mk("mod", -1, bigOf(a[1]), y))
 	}
 	intrinsics["(*math/big.Int).Set"] = func(in *Interp, fn *ssa.Function, a []Value) Value { return setRecv(a, bigOf(a[1])) }
